@@ -37,7 +37,7 @@
 
    No proofs in this file. *)
 From Coq Require Import ZArith List Bool String Ascii.
-From Verif Require Import Base.Wrap Base.Wire Spec.PoolSpec.
+From Verif Require Import Base.Wrap Base.Wire Spec.PoolTraceSpec.
 Import ListNotations.
 Local Open Scope Z_scope.
 
